@@ -375,10 +375,10 @@ class Sectionable(BaseObject):
         """
         stack = []
         # Below: never yield self if self is a Document
-        if self == self.document and ((max_depth is None) or (max_depth > 0)):
+        if self is self.document and ((max_depth is None) or (max_depth > 0)):
             for sec in self.sections:
                 stack.append((sec, 1))  # (<section>, <level in a tree>)
-        elif self != self.document:
+        elif self is not self.document:
             stack.append((self, 0))  # (<section>, <level in a tree>)
 
         while len(stack) > 0:
